@@ -118,6 +118,11 @@ def table():
     for kind in ("exact", "min", "max"):
         row(f"selection.{kind}.with_cumulative3.k=n+1", REJECT, lambda kind=kind: sel_cum([3], 1, 3, kind), "selection")
         row(f"selection.{kind}.with_cumulative3.k=n", ACCEPT, lambda kind=kind: sel_cum([3], 1, 2, kind), "selection")
+    # "from fewer than two": a single entry, whatever it is (a cumulative worker of any size is ONE entry)
+    for kind in ("exact", "min", "max"):
+        for size in (2, 4):
+            row(f"selection.{kind}.single_cumulative{size}", REJECT, lambda kind=kind, size=size: sel_cum([size], 0, 1, kind),
+                "selection")
     row("selection.two_cumulative2.k=n+1", REJECT, lambda: sel_cum([2, 2], 0, 3), "selection")
     row("selection.two_cumulative2.k=n", ACCEPT, lambda: sel_cum([2, 2], 0, 2), "selection")
     for size in (0, 1):
